@@ -56,6 +56,7 @@ def init(repo_root):
     from . import maps  # noqa: F401
     from . import mat2  # noqa: F401  content-level 2-D arrays / frames (injectors)
     from . import opaque_coll  # noqa: F401  opaque dict / list / set values, index bags
+    from . import nnsp_model  # noqa: F401  content-level vstack / unique / split / fancy store (NNSpacePartitioner.build)
     from . import pcacd_model  # noqa: F401  opaque sklearn / pandas / monitor models for the PCACD.update skeleton
     return _STATE["repo"], _STATE["reg"]
 
